@@ -87,6 +87,31 @@ def verify(sid):
     return out
 
 
+def run_inplace(sid, tier='quick'):
+    """The literal protocol of the brief: apply the change to /repo itself, run the check, undo it
+    straight afterwards (use only when no other check is running)."""
+    d = os.path.join(S, sid)
+    meta = json.load(open(os.path.join(d, 'meta.json')))
+    prop = meta['property']
+    r0 = sh('git -C /repo status --porcelain --untracked-files=no')
+    assert r0.stdout.strip() == '', '/repo has local modifications: ' + r0.stdout
+    r = sh('git -C /repo apply %s' % os.path.join(d, 'patch.diff'))
+    assert r.returncode == 0, r.stdout
+    t0 = time.time()
+    try:
+        r = sh('cd %s && VERIF_EVIDENCE_DIR=/tmp/seed-evid-%s ./check %s --tier %s' % (V, sid, prop, tier), timeout=5400)
+    finally:
+        u = sh('git -C /repo checkout -- .')
+        assert u.returncode == 0, u.stdout
+    viol = [l for l in r.stdout.splitlines() if l.startswith('VIOLATION')]
+    res = {'seed': sid, 'property': prop, 'tier': tier, 'mode': 'applied to /repo itself', 'exit': r.returncode,
+           'violations': viol[:5], 'detected': r.returncode == 1 and bool(viol),
+           'with_failing_input': any('no-failing-input-found' not in v for v in viol), 'wall_s': round(time.time() - t0, 1)}
+    json.dump(res, open(os.path.join(d, 'result_inplace.json'), 'w'), indent=1)
+    print(json.dumps(res))
+    return res
+
+
 if __name__ == '__main__':
     cmd = sys.argv[1]
     if cmd == 'all':
@@ -96,6 +121,9 @@ if __name__ == '__main__':
     elif cmd == 'run':
         for sid in sys.argv[2:]:
             run(sid)
+    elif cmd == 'inplace':
+        for sid in sys.argv[2:]:
+            run_inplace(sid)
     elif cmd == 'verify':
         for sid in sys.argv[2:]:
             verify(sid)
